@@ -12,7 +12,13 @@ use serde::{Deserialize, Serialize};
 use std::path::Path;
 
 // (the last four hold non-ASCII numeric characters: decimal digit U+0663, other number U+00B2, letter number U+2167)
-pub const NAMES: [&str; 10] = ["LvA", "LvAB", "_lvx", "lv.1", "élv1", "LvZ9", "Lv\u{663}x", "Lv\u{b2}", "\u{2167}Lv", "\u{663}"];
+macro_rules! n16 {
+    ($s:expr) => {
+        concat!($s, $s, $s, $s, $s, $s, $s, $s, $s, $s, $s, $s, $s, $s, $s, $s)
+    };
+}
+/// (the last two are 264 and 1032 characters long: environment variable names have no length limit to speak of)
+pub const NAMES: [&str; 12] = ["LvA", "LvAB", "_lvx", "lv.1", "élv1", "LvZ9", "Lv\u{663}x", "Lv\u{b2}", "\u{2167}Lv", "\u{663}", concat!("Lv_long_", n16!(n16!("n"))), concat!("Lv_LONG_", n16!(n16!("NnNn")))];
 const VALUES: [&str; 12] = ["val", "", "{", "}", "ENV{LvAB}", "LvAB}", "sub/dir", "ü", "x y", "ENV{LvA}{", "/abs/x", "/"];
 const LITERALS: [&str; 14] = ["a", "log", "é", " ", "-", ".", "_", "$", "{", "}", "$ENV", "$ENV{", "ENV{", "$$"];
 const MALFORMED: [&str; 10] = ["$ENV{}", "$ENV{.a}", "$ENV{-a}", "$ENV{$ENV{LvA}}", "$ENV{Lv-A}", "$ENV{Lv A}", "$ENV{Lv$A}", "$ENV{LvA", "$ENV{LvA/x}", "$ENV{ }"];
@@ -162,11 +168,12 @@ fn collapse(p: &str) -> String {
 pub fn check_e2e(tmp: &Path, case: &Case, obs: &mut Obs) -> CaseResult {
     install(&case.vars);
     let want_rel = reference(case);
-    if !fs_safe(&want_rel) || !fs_safe(&case.path) {
+    // (the given path may be long - a reference to a variable with a very long name - as long as what it expands to is not)
+    if !fs_safe(&want_rel) || case.path.is_empty() || case.path.len() > 3000 || case.path.contains('\0') || case.path.ends_with('/') {
         obs.class("not-filesystem-safe(skipped)");
         return Ok(());
     }
-    for which in 0..7 {
+    for which in 0..8 {
         let root = scratch(tmp, "c19");
         let given = format!("{}/{}", root.display(), case.path);
         if which == 3 || which == 4 {
@@ -191,6 +198,15 @@ pub fn check_e2e(tmp: &Path, case: &Case, obs: &mut Obs) -> CaseResult {
                     let policy = make_policy(&root.join("unused"), &TrigSpec::Size(1 << 40), &RollSpec::Delete).map_err(|e| e.to_string())?;
                     build_appender(Path::new(&given), false, &None, policy).map_err(|e| e.to_string())?;
                 }
+                7 => {
+                    // index in a directory component below the expanded path, window of 3, four rolls
+                    let roller = FixedWindowRoller::builder().build(&format!("{}/{{}}/app.log", given), 3).map_err(|e| e.to_string())?;
+                    for i in 0..4 {
+                        let src = root.join("rolled-src");
+                        std::fs::write(&src, format!("roll {}", i)).map_err(|e| e.to_string())?;
+                        roller.roll(&src).map_err(|e| e.to_string())?;
+                    }
+                }
                 5 | 6 => {
                     // the same locations reached through a configuration file (the deserializers build the appenders)
                     let q = |s: &str| serde_json::to_string(s).unwrap();
@@ -214,7 +230,7 @@ pub fn check_e2e(tmp: &Path, case: &Case, obs: &mut Obs) -> CaseResult {
             }
             Ok(())
         });
-        let what = ["FileAppender", "RollingFileAppender", "FixedWindowRoller", "FileAppender(truncate mode)", "RollingFileAppender(truncate mode)", "kind: file (configuration file)", "kind: rolling_file (configuration file)"][which];
+        let what = ["FileAppender", "RollingFileAppender", "FixedWindowRoller", "FileAppender(truncate mode)", "RollingFileAppender(truncate mode)", "kind: file (configuration file)", "kind: rolling_file (configuration file)", "FixedWindowRoller (index in a directory, 4 rolls)"][which];
         let res = match r {
             Err(p) => {
                 let _ = std::fs::remove_dir_all(&root);
@@ -234,6 +250,23 @@ pub fn check_e2e(tmp: &Path, case: &Case, obs: &mut Obs) -> CaseResult {
             want_rel.clone()
         };
         if !fs_safe(&want_file) {
+            continue;
+        }
+        if which == 7 {
+            // archives 0..2 below the expanded location, newest first, nothing anywhere else
+            // (the roller replaces every "{}" of its pattern - also one inside the given path - by the index before expanding)
+            let at = |i: usize| expand_ref(&format!("{}/{{}}/app.log", case.path).replace("{}", &i.to_string()), &|name: &str| lookup_var(case, name));
+            let base = at(0);
+            if (0..3).any(|i| !fs_safe(&at(i))) {
+                continue;
+            }
+            let want: std::collections::BTreeMap<String, Vec<u8>> = (0..3).map(|i| (collapse(&at(i)), format!("roll {}", 3 - i).into_bytes())).collect();
+            obs.sub_evals += 1;
+            ensure!(
+                s.files == want,
+                if s.files.keys().any(|f| f.contains("$ENV{")) { "C19:not-expanded" } else { "C19:wrong-location" },
+                "{} given {:?}: after four rolls the directory holds {:?}; the expanded location is {:?} with archives 0..2", what, case.path, s.files.keys().collect::<Vec<_>>(), base
+            );
             continue;
         }
         let files: Vec<&String> = s.files.keys().collect();
@@ -278,7 +311,7 @@ pub fn replay(part: &str, case: serde_json::Value) -> Option<CaseResult> {
 pub fn meta() -> EvidenceMeta {
     EvidenceMeta {
         level: "exploration",
-        rule: "cases = paths built as token sequences (literal ASCII/non-ASCII text, spaces, stray '$', '{', '}', '$ENV', '$ENV{', well-formed references to a pool of ten variables (names incl. '.', '_' first, non-ASCII letters, non-ASCII decimal digits / letter numbers / other numbers) each set or unset per case, repeated and adjacent references, malformed references: empty name, illegal first/inner character, nested, missing brace at end or before '/') with '$'-free adversarial values (empty, braces, 'ENV{LvAB}', 'LvAB}', sub-directories, non-ASCII); oracle: (bulk, guarded hook) expansion == the harness's single left-to-right pass in which substituted text is never rescanned, no panic; (end-to-end, public API) FileAppender::build, RollingFileAppender::build, the same two through a YAML configuration file and the default deserializers, and FixedWindowRoller::roll on a filesystem-safe path under a fresh directory create exactly the file at the reference location and no other regular file, and in truncate mode empty the pre-existing file at that location. non-trivial = a substituted reference together with a construct left verbatim, or a value containing braces, or a multi-byte variable name".into(),
+        rule: "cases = paths built as token sequences (literal ASCII/non-ASCII text, spaces, stray '$', '{', '}', '$ENV', '$ENV{', well-formed references to a pool of twelve variables (two with names of 264 and 1032 characters) (names incl. '.', '_' first, non-ASCII letters, non-ASCII decimal digits / letter numbers / other numbers) each set or unset per case, repeated and adjacent references, malformed references: empty name, illegal first/inner character, nested, missing brace at end or before '/') with '$'-free adversarial values (empty, braces, 'ENV{LvAB}', 'LvAB}', sub-directories, non-ASCII); oracle: (bulk, guarded hook) expansion == the harness's single left-to-right pass in which substituted text is never rescanned, no panic; (end-to-end, public API) FileAppender::build, RollingFileAppender::build, the same two through a YAML configuration file and the default deserializers, and FixedWindowRoller::roll on a filesystem-safe path under a fresh directory create exactly the file at the reference location and no other regular file, and in truncate mode empty the pre-existing file at that location. non-trivial = a substituted reference together with a construct left verbatim, or a value containing braces, or a multi-byte variable name".into(),
         assumptions: vec!["values are '$'-free (the statement's domain)".into(), "environment mutated between cases: one driver thread per process".into()],
         mutants_caught: vec![],
     }
